@@ -110,6 +110,22 @@ theorem invariant {W : Nat} (hW : 1 ≤ W) :
     Inv W (init W) ∧ (∀ s l s', Inv W s → step W s l = some s' → Inv W s') ∧
     (∀ s, Reachable W s → Inv W s) := M0_invariant hW
 
+/-- **before the protocol**: a call that does not enter the protocol has started no goroutine; it returns the
+cancellation error only once the context is cancelled (a target no hash can reach, v1), nonce 0 for the zero target
+(v2), or panics in the caller for a target that overflows (v2, documented) — and a call with an attainable, valid
+target enters the protocol the theorems above are about. -/
+theorem preamble (ctx : Bool) :
+    (∀ p, preambleResult ctx p = some (some none) → ctx = true) ∧
+    preambleResult ctx (preambleV1 false) = (if ctx then some (some none) else none) ∧
+    preambleV1 true = .protocol ∧
+    preambleV2 true true = .trivial 0 ∧ preambleV2 false true = .protocol ∧
+    preambleResult ctx (preambleV2 false false) = some none := by
+  refine ⟨?_, ?_, rfl, rfl, rfl, rfl⟩
+  · intro p h
+    cases p <;> simp [preambleResult] at h
+    exact h
+  · simp [preambleV1, preambleResult]
+
 /-! ### non-vacuity: complete runs for two workers -/
 open Iota.Mine.Label in
 example : (run 2 (init 2) runFound).map (·.main) = some (.returned (some 42)) ∧
